@@ -246,6 +246,13 @@ func (c *Ctx) handleViolation(job SymJob, v gosym.Violation, key string) {
 		// the native run tripped over a vacuity guard of the harness, not over the property
 		status = "not-confirmed"
 	}
+	if job.noNativeReplay {
+		// fault flags and event recorders exist in the engine only: such a violation says "if this step
+		// fails, the property is broken"; it is reported only through a concrete input of the driver's
+		// own native part that makes a step fail (C19: the real CLI on a pre-existing file), else the
+		// run ends INCONCLUSIVE - never a VIOLATION without a native confirmation
+		status, msg = "not-confirmed-natively", "holds only under an injected fault or an engine-side event model; the driver's native part decides"
+	}
 	if status == "reproduced" && assertionID(msg) != assertionID(v.What) {
 		// the same inputs fail natively, but on another assertion than in the engine: the two
 		// disagree about what happens on this path, so neither is believed
